@@ -19,4 +19,13 @@ r = subprocess.run(["verus", "warm.rs"], cwd=w, capture_output=True, text=True)
 print(r.stdout.strip() or r.stderr.strip())
 if r.returncode != 0:
     ok = False
+# warm up the replay harness (compiles raindb's dependencies once into build/replay-target; the
+# bounded stand-ins report "unavailable" instead of failing if this does not build)
+try:
+    sys.path.insert(0, os.path.join(VERIF, "tools"))
+    import replay
+    with replay.ReplayBuild(os.environ.get("VERIF_REPO", "/repo")) as rb:
+        print("replay harness", "built" if os.path.exists(rb.bin) else "missing")
+except Exception as e:  # noqa
+    print("replay harness warm-up failed:", str(e)[:500])
 sys.exit(0 if ok else 1)
